@@ -256,7 +256,7 @@ def tasks(tier, seed):
     full = tier == 'thorough'
     t = [('invalid_classes', {})]
     for codec in ASCII_FAMILY + EBCDIC_FAMILY:
-        t.append(('sweep_blocks', dict(codec=codec, first_sizes=[0, 300, 1500] if not full else [0, 300, 900, 1500, 3000, 5800])))
+        t.append(('sweep_blocks', dict(codec=codec, first_sizes=[0, 300, 1500, 2480, 2600, 5800] if not full else [0, 300, 900, 1500, 2480, 2492, 2493, 2500, 2600, 3000, 4100, 5800])))
     for codec in ('latin_1', 'cp500', 'cp037', 'ascii'):
         t.append(('crafted_offsets', dict(codec=codec)))
     for i in range(4 if not full else 12):
